@@ -385,6 +385,31 @@ func c13Flags(p *Program, r *Report, fns []*ssa.Function) {
 					continue
 				}
 				callee := c.Call.StaticCallee()
+				if callee != nil && callee.Pkg != nil && callee.Pkg.Pkg.Path() == "math/big" && callee.Signature.Results().Len() == 2 {
+					// (*big.Float).Float64/Float32/Int64/Uint64/Int, (*big.Rat).Float64...: the second
+					// result says whether the value was delivered exactly
+					second := callee.Signature.Results().At(1).Type()
+					isAcc := types.TypeString(second, nil) == "math/big.Accuracy"
+					if bt, ok := second.Underlying().(*types.Basic); ok && bt.Kind() == types.Bool && (strings.HasPrefix(callee.Name(), "Float") || strings.HasPrefix(callee.Name(), "Int") || strings.HasPrefix(callee.Name(), "Uint")) {
+						isAcc = true
+					}
+					if isAcc {
+						counter[callee.Name()]++
+						key := fmt.Sprintf("%s -> big.%s#%d", fnKey(fn), callee.Name(), counter[callee.Name()])
+						var flag ssa.Value
+						for _, ref := range *c.Referrers() {
+							if ex, ok := ref.(*ssa.Extract); ok && ex.Index == 1 {
+								flag = ex
+							}
+						}
+						if flag != nil && reachesDecision(flag) {
+							r.OKf("flag-examined", key, c.Pos(), "the exactness result reaches a branch")
+						} else {
+							r.Fail("flag-examined", key, c.Pos(), "the exactness result (accuracy) of %s is not examined: a value that is rounded, underflows or overflows is delivered as if it were exact", callee.Name())
+						}
+					}
+					continue
+				}
 				if callee == nil || callee.Pkg == nil || shortPkg(callee.Pkg.Pkg) != "datacodec" {
 					continue
 				}
